@@ -88,6 +88,7 @@ type c09Rig struct {
 	origMode, origPwm int
 	paths             []string
 	lastTemp          int
+	scripts           map[string]string // component -> script (script based backends)
 }
 
 func writeScript(path, body string) {
@@ -100,7 +101,7 @@ func buildC09(sc c09Scenario) (*c09Rig, error) {
 	if err != nil {
 		return nil, err
 	}
-	r := &c09Rig{dir: dir, origMode: 2, origPwm: 97}
+	r := &c09Rig{dir: dir, origMode: 2, origPwm: 97, scripts: map[string]string{}}
 	sim.BaseConfig()
 	cfg := &configuration.CurrentConfig
 	cfg.TempSensorPollingRate = 50*time.Millisecond + 71*time.Nanosecond // off the control ticks' time grid
@@ -140,6 +141,7 @@ func buildC09(sc c09Scenario) (*c09Rig, error) {
 		r.sensCmd.set("code", "0")
 		script := filepath.Join(dir, "sensor.sh")
 		writeScript(script, "cat "+sd+"/val\nexit $(cat "+sd+"/code)\n")
+		r.scripts["sensorRead"] = script
 		sensCfg.Cmd = &configuration.CmdSensorConfig{Exec: script}
 	}
 	cfg.Sensors = []configuration.SensorConfig{sensCfg}
@@ -201,8 +203,9 @@ func buildC09(sc c09Scenario) (*c09Rig, error) {
 		}
 		set, get, rpm := filepath.Join(dir, "set.sh"), filepath.Join(dir, "get.sh"), filepath.Join(dir, "rpm.sh")
 		writeScript(set, "m=$(cat "+fd+"/setmode)\n[ \"$m\" = refuse ] && exit 1\n[ \"$m\" = ignore ] && exit 0\necho \"$1\" > "+fd+"/pwm\n")
-		writeScript(get, "m=$(cat "+fd+"/getmode)\n[ \"$m\" = io ] && exit 1\n[ \"$m\" = garbage ] && { echo n/a; exit 0; }\n[ \"$m\" = empty ] && exit 0\ncat "+fd+"/pwm\n")
-		writeScript(rpm, "m=$(cat "+fd+"/rpmmode)\n[ \"$m\" = io ] && exit 1\n[ \"$m\" = garbage ] && { echo n/a; exit 0; }\n[ \"$m\" = empty ] && exit 0\necho $(( 300 + 10 * $(cat "+fd+"/pwm) ))\n")
+		writeScript(get, "m=$(cat "+fd+"/getmode)\n[ \"$m\" = io ] && exit 1\n[ \"$m\" = garbage ] && { echo n/a; exit 0; }\n[ \"$m\" = empty ] && exit 0\n[ \"$m\" = blank ] && { echo ' '; exit 0; }\n[ \"$m\" = nan ] && { echo nan; exit 0; }\n[ \"$m\" = range ] && { echo 65535; exit 0; }\ncat "+fd+"/pwm\n")
+		writeScript(rpm, "m=$(cat "+fd+"/rpmmode)\n[ \"$m\" = io ] && exit 1\n[ \"$m\" = garbage ] && { echo n/a; exit 0; }\n[ \"$m\" = empty ] && exit 0\n[ \"$m\" = blank ] && { echo; exit 0; }\n[ \"$m\" = nan ] && { echo inf; exit 0; }\n[ \"$m\" = range ] && { echo -1; exit 0; }\necho $(( 300 + 10 * $(cat "+fd+"/pwm) ))\n")
+		r.scripts["pwmWrite"], r.scripts["pwmRead"], r.scripts["rpmRead"] = set, get, rpm
 		fanCfg.Cmd = &configuration.CmdFanConfig{
 			SetPwm: &configuration.ExecConfig{Exec: set, Args: []string{"%pwm%"}},
 			GetPwm: &configuration.ExecConfig{Exec: get}, GetRpm: &configuration.ExecConfig{Exec: rpm}}
@@ -256,8 +259,10 @@ func trimNl(s string) string {
 	return s
 }
 
-var readKinds = map[string]int{"": sim.ReadOK, "io": sim.ReadEIO, "garbage": sim.ReadGarbage, "empty": sim.ReadEmpty}
-var writeKinds = map[string]int{"": sim.WriteOK, "refuse": sim.WriteRefuse, "ignore": sim.WriteIgnore}
+var readKinds = map[string]int{"": sim.ReadOK, "io": sim.ReadEIO, "garbage": sim.ReadGarbage, "empty": sim.ReadEmpty,
+	"blank": sim.ReadBlank, "nan": sim.ReadNaN, "range": sim.ReadRange,
+	"nostart": sim.ReadEACCES} // virtual devices have no executable: the closest thing is a permission error
+var writeKinds = map[string]int{"": sim.WriteOK, "refuse": sim.WriteRefuse, "ignore": sim.WriteIgnore, "nostart": sim.WriteRefuse}
 
 // apply puts the fault modes for cycle k in force.
 func (r *c09Rig) apply(faults []c09Fault, k int) (active map[string]string) {
@@ -283,6 +288,20 @@ func (r *c09Rig) apply(faults []c09Fault, k int) (active map[string]string) {
 			r.sensCmd.set("val", "")
 			r.sensCmd.set("code", "0")
 			r.sensCmd.set("mode", "x")
+		case "blank":
+			r.sensCmd.set("val", " \n")
+			r.sensCmd.set("code", "0")
+			r.sensCmd.set("mode", "x")
+		case "nan":
+			r.sensCmd.set("val", "nan\n")
+			r.sensCmd.set("code", "0")
+			r.sensCmd.set("mode", "x")
+		case "range":
+			r.sensCmd.set("val", "1e30\n")
+			r.sensCmd.set("code", "0")
+			r.sensCmd.set("mode", "x")
+		case "nostart":
+			r.sensCmd.set("mode", "x")
 		default:
 			r.sensCmd.set("code", "0")
 			r.sensCmd.set("mode", "")
@@ -304,6 +323,14 @@ func (r *c09Rig) apply(faults []c09Fault, k int) (active map[string]string) {
 		r.fanCmd.set("getmode", or(active["pwmRead"]))
 		r.fanCmd.set("setmode", or(active["pwmWrite"]))
 		r.fanCmd.set("rpmmode", or(active["rpmRead"]))
+	}
+	// "nostart": the command cannot be started at all for the duration of the fault (no execute bit)
+	for comp, script := range r.scripts {
+		mode := os.FileMode(0755)
+		if active[comp] == "nostart" {
+			mode = 0644
+		}
+		_ = os.Chmod(script, mode)
 	}
 	return active
 }
@@ -512,8 +539,10 @@ var (
 func c09SingleFaults(starts []int, lens []int) []c09Fault {
 	var out []c09Fault
 	for _, comp := range []string{"sensorRead", "rpmRead", "pwmRead", "pwmWrite", "modeWrite"} {
-		kinds := []string{"io", "garbage", "empty"}
-		if comp == "pwmWrite" || comp == "modeWrite" {
+		kinds := []string{"io", "garbage", "empty", "blank", "nan", "range", "nostart"}
+		if comp == "pwmWrite" {
+			kinds = []string{"refuse", "ignore", "nostart"}
+		} else if comp == "modeWrite" {
 			kinds = []string{"refuse", "ignore"}
 		}
 		for _, k := range kinds {
